@@ -422,7 +422,8 @@ def check(pid, tier, seed, replay=None):
 
     # 3. correspondence --------------------------------------------------------------------
     corpus = list(getattr(prop, "CORPUS", []))
-    ops = corpus + [o for o in prop.gen_ops(eff_tier, rng)]
+    escalated = eff_tier != tier
+    ops = corpus + [o for o in prop.gen_ops(tier, rng)]
     seen, uniq = set(), []
     for o in ops:
         if o not in seen:
@@ -433,6 +434,25 @@ def check(pid, tier, seed, replay=None):
     if len(impl_outs) < len(ops):
         notes.append(f"stopped after {len(impl_outs)} of {len(ops)} operations: the implementation hung repeatedly")
         ops = ops[:len(impl_outs)]
+    elif escalated:
+        # a changed anchored function gets the thorough generator at once - unless the ordinary stream already
+        # shows a violation that is not a recorded finding (then the report must not wait for the deep sweep)
+        open_sigs = {k["signature"] for k in load_known()
+                     if k.get("property") == pid and k.get("status") == "open"}
+        if any(safe_signature(prop, o, w) not in open_sigs for o, _, w in viols):
+            notes.append("thorough sweep skipped: the ordinary stream already shows a violation")
+        else:
+            more = []
+            for o in prop.gen_ops(eff_tier, random.Random(seed * 1000003 + int(pid[1:]))):
+                if o not in seen:
+                    seen.add(o)
+                    more.append(o)
+            outs2, viols2 = run_ops(prop, more)
+            if len(outs2) < len(more):
+                notes.append(f"stopped after {len(ops) + len(outs2)} of {len(ops) + len(more)} operations: "
+                             "the implementation hung repeatedly")
+                more = more[:len(outs2)]
+            ops, impl_outs, viols = ops + more, impl_outs + outs2, viols + viols2
     mismatches = []
     model_outs = [None] * len(ops)
     if model_ok:
